@@ -27,4 +27,9 @@ func facts() {
 	skeletonFact("skel_cognito_ValidateGroupMembership", []string{"C17"}, "internal/auth/providers/amazon_cognito.go", "AmazonCognitoProvider", "ValidateGroupMembership")
 
 	statusSetFact("unavailableStatuses", []string{"C05", "C04"}, "internal/proxy/providers/sso.go", "isProviderUnavailable")
+
+	muxRoutes("proxyRoutes", []string{"C01", "C06", "C13", "C18", "C19"}, "internal/proxy/oauthproxy.go", "OAuthProxy", "Handler")
+	skeletonFact("skel_proxy_Handler", []string{"C01", "C18"}, "internal/proxy/oauthproxy.go", "OAuthProxy", "Handler")
+	skeletonFact("skel_proxy_Proxy", []string{"C01"}, "internal/proxy/oauthproxy.go", "OAuthProxy", "Proxy")
+	skeletonFact("skel_hostmux_Route", []string{"C13"}, "internal/pkg/hostmux/hostmux.go", "Router", "Route")
 }
